@@ -103,8 +103,8 @@ def replay_theta(sc):
             if any(grid.axes[i][st[i]] < a for i in range(2)):
                 tot += proc.sampling.probability_to_jump_to_state((st[0] - piv[0], st[1] - piv[1])) * lam
         theta = CFC.CFLevyCopulaModel(proc.model)._theta([a, a])
-        if abs(tot - theta) > 1e-4 * max(1, theta):
-            out.append(f"2-d: default-state rates {tot!r} vs closed-form theta {theta!r}")
+        if abs(tot - theta) > 1e-9 * max(1, theta):
+            out.append(f"2-d (HEM x HEM, Clayton(0.7, 0.3), credit grid h = {h}, thresholds {a}): default-state rates {tot!r} vs closed-form theta of the chain's truncated model {theta!r}")
     return bool(out), "; ".join(out) if out else "default-state rates equal theta on HEM"
 
 
@@ -154,11 +154,9 @@ def h_theta_2d(ctx, symmetric):
     models = [A.abs_levy_model(ctx, f"nu{i}", sigma=0.0, a=0.0, finite_activity=False, finite_variation=True) for i in range(d)]
     cop = A.AbsCopula(ctx, "F", d)
     lcm = LCM.LevyCopulaModel(models=models, copula=cop)
-    # "the model restricted to the grid's truncation": no marginal mass outside [l, r]
-    for mdl in models:
-        nu = mdl.levy_triplet.nu
-        ctx.axiom(nu._Lk(0, l) == 0)
-        ctx.axiom(nu._Tk(0, r) == 0)
+    # "the model restricted to the grid's truncation": the chain truncates its copy of the model itself (LevyCopulaModel.truncate_levy_measure).
+    # Whether the margins charge anything outside [l, r] is left to the solver; the listed known finding is exactly the case where they do.
+    outside_mass = OR(*[OR(SymBool(mdl.levy_triplet.nu._Lk(0, l) != 0), SymBool(mdl.levy_triplet.nu._Tk(0, r) != 0)) for mdl in models])
     try:
         proc = MCLC.MarkovChainLevyCopula(lcm, grid, SamplingMethod.INVERSION)
     except ZeroDivisionError:
@@ -182,7 +180,8 @@ def h_theta_2d(ctx, symmetric):
     theta = CFC.CFLevyCopulaModel(proc.model)._theta(ths)
     rp = (replay_theta, lambda m: {"d": 2})
     # masses are clipped at 0 by the sampler; under the d-increasing axiom they are non-negative: instantiate it on every cell image
-    ctx.prove("C19.default_state_rates_sum_to_theta.2d", EQ(tot, theta), info={"symmetric": symmetric}, replay=rp, timeout_ms=60000)
+    ctx.prove("C19.default_state_rates_sum_to_theta.2d", EQ(tot, theta), info={"symmetric": symmetric}, replay=rp, timeout_ms=60000,
+              regions={"margins_charge_the_outside_of_the_truncation_box": outside_mass})
 
 
 def replay_inclusion_exclusion(sc):
@@ -337,8 +336,8 @@ def h_twin(ctx):
 
 def concrete_validation():
     ok1, d1 = replay_theta({"d": 1})
-    ok2, d2 = replay_theta({"d": 2})
-    return [("C19.concrete.theta1d", not ok1, d1), ("C19.concrete.theta2d", not ok2, d2)]
+    # the 2-d reference scenario (real HEM margins charge the outside of every box) is the listed known finding of theta2d: not run here
+    return [("C19.concrete.theta1d", not ok1, d1)]
 
 
 def harnesses(tier):
